@@ -39,6 +39,9 @@ type ctx struct {
 	rep  *hx.Report
 	j    *hx.Journal
 	keep *jx.Keeper // earlier jsonx.Marshal results, re-verified after later calls
+	work string
+	// the one path all wfile ops of a run write to, and the previous wfile op
+	wpath, wprev string
 }
 
 func isWsByte(b byte) bool { return b == ' ' || b == '\t' || b == '\n' || b == '\r' }
@@ -321,6 +324,8 @@ func (c *ctx) runOp(line string) string {
 		return out
 	case "conc":
 		return c.concurrent(ws, line)
+	case "wfile":
+		return c.writeFile(ws, line)
 	case "tojson":
 		if len(line) > 4000 {
 			c.j.Risky(line)
@@ -350,6 +355,54 @@ func (c *ctx) runOp(line string) string {
 		return n.String()
 	}
 	return "bad-op"
+}
+
+// writeFile: WriteFile(path, v) on the run's one path, then ReadFile(path) must give v
+// back, whatever was written to the path before.
+func (c *ctx) writeFile(ws []string, line string) string {
+	v, rest, ok := jx.ParseSpec(ws[1:])
+	if !ok || len(rest) != 0 {
+		return "bad-op"
+	}
+	if c.wpath == "" {
+		dir := c.work
+		if dir == "" {
+			dir = os.TempDir()
+		}
+		c.wpath = filepath.Join(dir, fmt.Sprintf("c07-wfile-%d.jsonx", os.Getpid()))
+		os.Remove(c.wpath)
+	}
+	prev := c.wprev
+	c.wprev = line
+	want, err := json.Marshal(v)
+	if err != nil {
+		return "bad-op"
+	}
+	if err := jsonx.WriteFile(c.wpath, v); err != nil {
+		c.rep.Fail("writefile-error", fmt.Sprintf("WriteFile failed: %v", err), []string{line})
+		return "write-error"
+	}
+	ops := []string{line}
+	if prev != "" {
+		ops = []string{prev, line}
+	}
+	var raw json.RawMessage
+	rerr := jsonx.ReadFile(c.wpath, &raw)
+	eq := false
+	if rerr == nil {
+		eq, _ = jx.EqualText(raw, want)
+	}
+	if rerr != nil || !eq {
+		key := "writefile-roundtrip"
+		if k, _ := roundTrip(v); k == "" { // the value alone round-trips: the file is at fault
+			key = "writefile-leaves-old-tail"
+		}
+		got, _ := os.ReadFile(c.wpath)
+		c.rep.Fail(key, fmt.Sprintf("ReadFile after WriteFile of %.80s on a path written before: error %v, value %.80s; the file holds %.120q",
+			want, rerr, raw, got), ops)
+		return "failed"
+	}
+	return "held"
 }
 
 // concurrent: n goroutines marshal different values over and over; each keeps its
@@ -518,6 +571,12 @@ func main() {
 		"leaves and the RFC 8259 predicates; distinct = distinct op line; non-trivial = every op"
 	c := &ctx{rep: rep, j: hx.NewJournal(f.Work)}
 	c.keep = &jx.Keeper{What: "jsonx.Marshal", Fail: rep.Fail}
+	c.work = f.Work
+	defer func() {
+		if c.wpath != "" {
+			os.Remove(c.wpath)
+		}
+	}()
 
 	var ops []string
 	if f.Replay != "" {
@@ -604,6 +663,41 @@ func main() {
 			g.value(g.g.Deep(d))
 			rep.Count("val:deep")
 		}
+		// one path written over and over with values of decreasing and increasing rendered length
+		wf := func(v interface{}) {
+			if sp := specOf(v); sp != "" {
+				g.ops = append(g.ops, "wfile "+sp) // order matters: not de-duplicated
+				rep.Case("wfile "+sp, true)
+				rep.Count("file:write-read")
+			}
+		}
+		for _, n := range []int{300, 40, 3, 0, 120, 1, 5000, 10} {
+			wf(strings.Repeat("x", n))
+		}
+		for _, n := range []int{60, 5, 0, 1, 30} {
+			arr := make([]interface{}, n)
+			for i := range arr {
+				arr[i] = int64(i)
+			}
+			wf(arr)
+			wf(map[string]interface{}{"k": arr, "n": n})
+		}
+		nwf := 40
+		if f.Thorough() {
+			nwf = 2000
+		}
+		for i := 0; i < nwf; i++ {
+			wf(g.g.Value(g.r.Intn(4)))
+		}
+		// multi-byte characters at every alignment around the reader's buffer sizes
+		for _, o := range jx.BoundaryOffsets([]int{4096, 8192, 65536}) {
+			for _, ch := range jx.BoundaryRunes {
+				g.value(jx.Pad(o-1) + ch + "z")                                         // "pad<ch>: the quote is byte 0
+				g.value(map[string]interface{}{jx.Pad(o-7) + ch: "v"})                  // {\n    "pad<ch>
+				g.value([]interface{}{jx.Pad(100), jx.Pad(o-120) + ch + ch + ch + "!"}) // somewhere around
+				rep.Count("val:buffer-boundary")
+			}
+		}
 		// result isolation under concurrency
 		nconc := 6
 		if f.Thorough() {
@@ -668,7 +762,7 @@ func main() {
 	var mops []string
 	var midx []int
 	for i, op := range ops {
-		if !strings.HasPrefix(op, "conc ") {
+		if !strings.HasPrefix(op, "conc ") && !strings.HasPrefix(op, "wfile ") {
 			mops = append(mops, op)
 			midx = append(midx, i)
 		}
